@@ -57,7 +57,7 @@ def graph_items(prop, tier, seed, oracles, *, max_mult_q=1, opts=None, tags=(), 
         for e in F.shapes(n, max_mult=(max_mult_q if tier == 'quick' else 2), recorded_only=recorded_only, allow_noop=noop):
             add(n, e, F.describe(n, e), std_layouts(n, tier, seed))
     mx = n3_edges_q if tier == 'quick' else n3_edges_t
-    for e in F.shapes(3, max_mult=1, max_edges=mx, recorded_only=recorded_only, self_edges=(tier != 'quick')):
+    for e in F.shapes(3, max_mult=1, max_edges=mx, recorded_only=recorded_only, self_edges=(tier != 'quick' and mx <= 4)):
         add(3, e, F.describe(3, e), std_layouts(3, tier, seed)[:3 if tier == 'quick' else 6])
     for n in ((3,) if tier == 'quick' else (3, 4)):
         for nm, e in F.named_shapes(n).items():
@@ -362,7 +362,7 @@ OUTSIDE = ['N>4 objects', 'more than 2 parallel handles per ordered pair', 'allo
 
 def items_C01(tier, seed, P):
     o = {'panics_ok': True}
-    return (graph_items('C01', tier, seed, {'C01'}, opts=o) + mult_items('C01', tier, seed, {'C01'}, opts=o) + history_items('C01', tier, seed, {'C01'}, opts=o)
+    return (graph_items('C01', tier, seed, {'C01'}, opts=o, n3_edges_q=4, n3_edges_t=6) + mult_items('C01', tier, seed, {'C01'}, opts=o) + history_items('C01', tier, seed, {'C01'}, opts=o)
             + api_items('C01', tier, seed, {'C01'}, opts=o))
 
 
@@ -380,7 +380,7 @@ PROPS['C02'] = dict(items=items_C02, bounds=BOUNDS_GRAPH, outside=OUTSIDE, vacui
 
 
 def items_C03(tier, seed, P):
-    its = graph_items('C03', tier, seed, {'C03'}, recorded_only=False) + mult_items('C03', tier, seed, {'C03'}) + history_items('C03', tier, seed, {'C03'})
+    its = graph_items('C03', tier, seed, {'C03'}, recorded_only=False, n3_edges_q=4, n3_edges_t=6) + mult_items('C03', tier, seed, {'C03'}) + history_items('C03', tier, seed, {'C03'})
     # make_mut through an outside handle of a group member (value cloned into a fresh allocation, the old handle released
     # inside make_mut): the recorded graph of the old object must still lead to its collection
     R = lambda i, j: (i, j, True, False)
@@ -410,7 +410,7 @@ PROPS['C03'] = dict(items=items_C03, bounds=BOUNDS_GRAPH, outside=OUTSIDE, vacui
 
 def items_C08(tier, seed, P):
     o = {'panics_ok': True}
-    return (graph_items('C08', tier, seed, {'C08'}, opts=o, noop=True) + mult_items('C08', tier, seed, {'C08'}, opts=o) + history_items('C08', tier, seed, {'C08'}, opts=o)
+    return (graph_items('C08', tier, seed, {'C08'}, opts=o, noop=True, n3_edges_q=4, n3_edges_t=6) + mult_items('C08', tier, seed, {'C08'}, opts=o) + history_items('C08', tier, seed, {'C08'}, opts=o)
             + lemma_items('C08', ['linksremove']) + api_items('C08', tier, seed, {'C08'}, opts=o))
 
 
@@ -1673,3 +1673,15 @@ def api_items(prop, tier, seed, oracles, opts=None):
                         items.append(dict(prop=prop, name='%s %s on %d after %d drops, drops=%s' % (nm, an, tgt, when, ''.join('%s%d' % q for q in seq)),
                                           script={'ops': ops}, sym=True, oracles=set(oracles), opts=dict(opts or {}), layouts=std_layouts(n, tier, seed)[:2]))
     return items
+
+
+def _with_n3(b, q, t):
+    import copy
+    b = copy.deepcopy(b)
+    b['quick']['objects'] = b['quick']['objects'].replace('N=3 shapes with <=3 edges', 'N=3 shapes with <=%d edges' % q)
+    b['thorough']['objects'] = b['thorough']['objects'].replace('N=3 with <=4 edges incl. self edges', 'N=3 with <=%d edges (all shapes without self edges)' % t)
+    return b
+
+
+for _p in ('C01', 'C03', 'C08'):
+    PROPS[_p]['bounds'] = _with_n3(BOUNDS_GRAPH, 4, 6)
